@@ -963,3 +963,132 @@ Proof.
   split; [exact ex_cfg_wf|]. split; [unfold ex12c, ex_con, ex_ack; wf_events|].
   split; [apply run_allb_spec; vm_compute; reflexivity|]. vm_compute. left. reflexivity.
 Qed.
+
+(* ================================================================== C12, the part that holds *)
+
+(* C12_partial_active: in a running session with an Active client, these client packets are each
+   answered by (at least) one write to the broker in the same step.  One lemma per packet kind; the
+   outputs are given exactly where the handler writes nothing else. *)
+Definition writes_mq (outs : list gw_out) : Prop := exists t m, In (OutMq t m) outs.
+
+Lemma step_active_sn cfg s dg p :
+  gw_ended s = false -> gw_ending s = None -> gw_st s = Active -> read_dgram dg = Ok p ->
+  gw_step cfg s (EvSn dg) = finish_r (handle_sn cfg (s <| gw_last_sn := gw_now s |>) p) true false /\
+  packet_legal cfg (s <| gw_last_sn := gw_now s |>) p = true /\
+  gw_st (s <| gw_last_sn := gw_now s |>) = Active.
+Proof.
+  intros He Hing Hst Hr. split; [|split].
+  - unfold gw_step. rewrite He, Hing. cbv zeta. rewrite Hr. reflexivity.
+  - unfold packet_legal. cbn [gw_st set]. rewrite Hst. reflexivity.
+  - exact Hst.
+Qed.
+
+Lemma C12_partial_active_pingreq cfg s dg cid :
+  gw_ended s = false -> gw_ending s = None -> gw_st s = Active -> read_dgram dg = Ok (Pingreq cid) ->
+  snd (gw_step cfg s (EvSn dg)) = [OutMq (gw_now s) MqPingreq].
+Proof.
+  intros He Hing Hst Hr. destruct (step_active_sn cfg s dg _ He Hing Hst Hr) as (-> & Hl & Hs).
+  unfold handle_sn. rewrite Hl, Hs. reflexivity.
+Qed.
+
+Lemma C12_partial_active_pubrel cfg s dg mid :
+  gw_ended s = false -> gw_ending s = None -> gw_st s = Active -> read_dgram dg = Ok (Pubrel mid) -> mid <> 0 ->
+  snd (gw_step cfg s (EvSn dg)) = [OutMq (gw_now s) (MqPubrel mid)].
+Proof.
+  intros He Hing Hst Hr Hm. destruct (step_active_sn cfg s dg _ He Hing Hst Hr) as (-> & Hl & Hs).
+  unfold handle_sn. rewrite Hl. apply N.eqb_neq in Hm. rewrite Hm. reflexivity.
+Qed.
+
+(* UNSUBSCRIBE that can be translated: message ID not 0, a predefined topic ID is known *)
+Lemma C12_partial_active_unsubscribe cfg s dg tit mid tid name :
+  gw_ended s = false -> gw_ending s = None -> gw_st s = Active ->
+  read_dgram dg = Ok (Unsubscribe tit mid tid name) -> mid <> 0 ->
+  (tit = TIT_PREDEFINED -> get_name (predefined cfg) (gw_client_id s) tid <> None) ->
+  writes_mq (snd (gw_step cfg s (EvSn dg))).
+Proof.
+  intros He Hing Hst Hr Hm Hp. destruct (step_active_sn cfg s dg _ He Hing Hst Hr) as (-> & Hl & Hs).
+  unfold handle_sn. rewrite Hl. cbn [negb]. unfold handle_unsubscribe. apply N.eqb_neq in Hm. rewrite Hm.
+  cbn [gw_client_id set].
+  destruct (tit =? TIT_STRING); [eexists _, _; left; reflexivity|].
+  destruct (N.eqb_spec tit TIT_PREDEFINED) as [E|E].
+  - specialize (Hp E). destruct (get_name (predefined cfg) (gw_client_id s) tid); [|congruence].
+    eexists _, _; left; reflexivity.
+  - destruct (tit =? TIT_SHORT); eexists _, _; left; reflexivity.
+Qed.
+
+(* SUBSCRIBE to a filter with wildcards, a short topic name or a known predefined topic ID *)
+Lemma C12_partial_active_subscribe cfg s dg dup qos tit mid tid name :
+  gw_ended s = false -> gw_ending s = None -> gw_st s = Active ->
+  read_dgram dg = Ok (Subscribe dup qos tit mid tid name) -> qos <= 2 -> mid <> 0 ->
+  ((tit = TIT_STRING /\ has_wildcard name = true) \/ tit = TIT_SHORT \/
+   (tit = TIT_PREDEFINED /\ get_name (predefined cfg) (gw_client_id s) tid <> None)) ->
+  writes_mq (snd (gw_step cfg s (EvSn dg))).
+Proof.
+  intros He Hing Hst Hr Hq Hm Hp. destruct (step_active_sn cfg s dg _ He Hing Hst Hr) as (-> & Hl & Hs).
+  unfold handle_sn. rewrite Hl. cbn [negb]. unfold handle_subscribe. cbv zeta.
+  apply N.eqb_neq in Hm. rewrite Hm. assert (Hq' : (2 <? qos) = false) by (apply N.ltb_ge; exact Hq). rewrite Hq'.
+  cbn [orb gw_client_id set]. unfold new_obj.
+  destruct Hp as [[-> Hw]|[->|[-> Hg]]].
+  - change (TIT_STRING =? TIT_STRING) with true. cbv iota. rewrite Hw. cbn [negb]. eexists _, _; left; reflexivity.
+  - change (TIT_SHORT =? TIT_STRING) with false. change (TIT_SHORT =? TIT_PREDEFINED) with false.
+    change (TIT_SHORT =? TIT_SHORT) with true. cbv iota. eexists _, _; left; reflexivity.
+  - change (TIT_PREDEFINED =? TIT_STRING) with false. change (TIT_PREDEFINED =? TIT_PREDEFINED) with true. cbv iota.
+    destruct (get_name (predefined cfg) (gw_client_id s) tid); [|congruence]. eexists _, _; left; reflexivity.
+Qed.
+
+(* PUBLISH that chk_C01 expects to be forwarded: the topic ID denotes a topic without wildcards and the
+   message ID fits the QoS *)
+Lemma C12_partial_active_publish cfg s dg dup q r tit tid mid data topic :
+  gw_ended s = false -> gw_ending s = None -> gw_st s = Active ->
+  read_dgram dg = Ok (Publish dup q r tit tid mid data) ->
+  resolve_client_topic cfg s tit tid = Some topic ->
+  has_wildcard topic || (((q =? 1) || (q =? 2)) && (mid =? 0)) = false ->
+  In (OutMq (gw_now s) (MqPublish dup (if q =? 3 then 0 else q) r topic mid data)) (snd (gw_step cfg s (EvSn dg))).
+Proof.
+  intros He Hing Hst Hr Hres Hok. destruct (step_active_sn cfg s dg _ He Hing Hst Hr) as (-> & Hl & Hs).
+  unfold handle_sn. rewrite Hl. cbn [negb]. unfold handle_client_publish.
+  change (resolve_client_topic cfg (s <| gw_last_sn := gw_now s |>) tit tid) with (resolve_client_topic cfg s tit tid).
+  rewrite Hres, Hok. cbv zeta. unfold new_obj. destruct (q =? 1); left; reflexivity.
+Qed.
+
+(* C12_partial_pinger: a legal DISCONNECT with a duration above the (non-zero) keep-alive starts the sleep
+   pinger: TmPing one keep-alive later, TmPingCancel at the end of the announced sleep ... *)
+Lemma disc0_fits : (len (pack (Disconnect 0)) <=? MaxPacketLen) = true.
+Proof. vm_compute. reflexivity. Qed.
+
+Lemma C12_partial_pinger_armed cfg s dg d :
+  gw_ended s = false -> gw_ending s = None -> connected s = true ->
+  read_dgram dg = Ok (Disconnect d) -> d <> 0 -> gw_keepalive s <> 0 -> gw_keepalive s < d ->
+  gw_timers (fst (gw_step cfg s (EvSn dg))) =
+  gw_timers s ++
+  [{| tm_at := gw_now s + gw_keepalive s * 1000; tm_seq := gw_next_seq s; tm_kind := TmPing (gw_next_obj s) |};
+   {| tm_at := gw_now s + d * 1000; tm_seq := gw_next_seq s + 1; tm_kind := TmPingCancel (gw_next_obj s) |}] /\
+  gw_st (fst (gw_step cfg s (EvSn dg))) = Asleep.
+Proof.
+  intros He Hing Hc Hr Hd Hk Hlt. unfold gw_step. rewrite He, Hing. cbv zeta. rewrite Hr.
+  unfold handle_sn, packet_legal. cbn [gw_st gw_keepalive set].
+  unfold connected in Hc. apply N.eqb_neq in Hd, Hk. apply N.ltb_lt in Hlt.
+  destruct (gw_st s) eqn:Hst; try discriminate Hc; cbn [negb]; rewrite Hd, Hk, Hlt; cbn [negb andb];
+    unfold sn_send, sn_send_owned, arm; cbn [gw_st set]; rewrite ?Hst, ?disc0_fits; cbn; rewrite <- ?app_assoc; split; reflexivity.
+Qed.
+
+(* ... and a firing TmPing writes PINGREQ to the broker and re-arms itself one keep-alive later *)
+Lemma C12_partial_pinger_fires cfg s p :
+  fire cfg s (TmPing p) = (arm s (TmPing p) (gw_keepalive s * 1000), [OutMq (gw_now s) MqPingreq], HOk).
+Proof. reflexivity. Qed.
+
+Print Assumptions mon_C13_sound.
+Print Assumptions mon_C10_sound.
+Print Assumptions C34_refuted.
+Print Assumptions mon_C34_partial.
+Print Assumptions C12_refuted_active.
+Print Assumptions C12_refuted_short_sleep.
+Print Assumptions C12_refuted_pinger_gap.
+Print Assumptions C12_partial_active_pingreq.
+Print Assumptions C12_partial_active_pubrel.
+Print Assumptions C12_partial_active_unsubscribe.
+Print Assumptions C12_partial_active_subscribe.
+Print Assumptions C12_partial_active_publish.
+Print Assumptions C12_partial_pinger_armed.
+Print Assumptions C12_partial_pinger_fires.
+Print Assumptions fuel_ok_ordinary.
